@@ -448,6 +448,13 @@ impl OpCase for Case {
         format!("{}:{}[{}]{}", self.cv.name(), self.op.describe(), self.ins.iter().map(|v| v.show()).collect::<Vec<_>>().join(","), if self.lenient { "~" } else { "" })
     }
     fn op(&self) -> String {
+        // finer operation classes where a known defect is confined to one of them
+        if let Op::MulByConst(k) = &self.op {
+            if k.v.bits() > 128 {
+                let id_base = matches!(self.ins.first(), Some(V::Pt(p)) if p.label == "Id");
+                return format!("{}:MulByConst[c>=2^128{}]", self.cv.name(), if id_base { ",base=identity" } else { "" });
+            }
+        }
         format!("{}:{}", self.cv.name(), self.op.name())
     }
     fn arch(&self) -> ZkStdLibArch {
